@@ -448,3 +448,52 @@ Contract(
     properties=["C10"],
     note="the formula returned is the visitor's meaning of a tree (ghost output) obtained without a reported error from the whole text",
 )
+
+
+# ---------------------------------------------------------------------------
+# C10: "a parsed base has the declared signature": the identifier list of the signature section, in the order written,
+# without duplicates and without the reserved names
+# ---------------------------------------------------------------------------
+from contracts.c_preocf import LStr, mem_Str  # noqa: E402
+
+_ix = z3.Const("_id_x", lib.Ctx)
+_one = lambda x: LStr.snoc(LStr.nil, lib.tok_text(lib.child["num"](x)))
+IDS_DEF = [
+    L.Forall([_ix], [lib.IdsOf(_ix)], lib.IdsOf(_ix) == z3.If(lib.has_myid(_ix), LStr.concat(_one(_ix), lib.IdsOf(lib.child["myid"](_ix))), _one(_ix)), "def.IdsOf"),
+]
+
+Contract(
+    "parser.myVisitor:myVisitor.visitMyid",
+    params={"self": VIS, "ctx": lib.TCtx},
+    returns=TList(TStr),
+    ensures=lambda c, r: [r.t == lib.IdsOf(c.ctx.t)],
+    axioms=IDS_DEF,
+    properties=["C10"],
+    note="an identifier list denotes its identifiers in the order written (this node's first)",
+)
+
+setofS = L.set_of_list(StrSort)
+_enumS, _eidxS, cardS = L.enum_theory(StrSort)
+
+
+def _sig_post(c, r):
+    ids = lib.IdsOf(lib.child["myid"](c.ctx.t))
+    return [r.t == ids, LStr.len(ids) == cardS(setofS(ids)), z3.Not(mem_Str(ids, VStr(const="Top").t)), z3.Not(mem_Str(ids, VStr(const="Bottom").t))]
+
+
+def _sig_refused(c):
+    ids = lib.IdsOf(lib.child["myid"](c.ctx.t))
+    return z3.Or(LStr.len(ids) != cardS(setofS(ids)), mem_Str(ids, VStr(const="Top").t), mem_Str(ids, VStr(const="Bottom").t))
+
+
+Contract(
+    "parser.myVisitor:myVisitor.visitSignature",
+    params={"self": VIS, "ctx": lib.TCtx},
+    returns=TList(TStr),
+    requires=lambda c: [lib.has_myid(c.ctx.t)],
+    ensures=_sig_post,
+    raises={"ValueError": _sig_refused},
+    properties=["C10"],
+    note="the signature is the identifier list as written; it is refused (ValueError) exactly if it has as many entries as distinct "
+    "entries fails (a duplicate) or contains Top / Bottom",
+)
